@@ -86,7 +86,8 @@ func (h *heldMetricsStore[T]) Delete(labels []string, deleter metricDeleter) boo
 	}
 
 	deleter.DeleteLabelValues(labels...)
-	*hMetrics[i] = heldMetric[T]{}
+	// only forget the metric: a caller that has just looked it up (GetOrCreate
+	// releases the lock before returning) may still be about to update it
 	hMetrics = append(hMetrics[:i], hMetrics[i+1:]...)
 
 	if len(hMetrics) == 0 {
@@ -152,7 +153,6 @@ func (h *heldMetricsStore[T]) DeleteOldMetrics(holdDuration time.Duration, delet
 			isObsolete := diff > holdDuration.Nanoseconds()
 			if isObsolete {
 				deleter.DeleteLabelValues(hMetric.labels...)
-				*hMetric = heldMetric[T]{} // release objects in the structure
 			}
 			return isObsolete
 		})
